@@ -11,7 +11,8 @@ CLAUSES = {1: "a response carried the content of a file OUTSIDE the served tree 
            6: "file content was served without a 'file requested' notice to the operator that names the request target as sent",
            21: "net/http's mux redirected (301) a path Model/Files.mux_redirects does not, or the reverse"}
 H = lambda s: (s if isinstance(s, bytes) else s.encode()).hex()
-TREE = ["a.txt", "sub/b.txt", "c", "io", "i/x", "o/x", "index.html", "sub/index.html", "sp ace.txt", "dot.file", "sub/deep/d.txt", "%2e%2e/enc.txt", "i/y/z"]
+TREE = ["a.txt", "sub/b.txt", "c", "io", "i/x", "o/x", "index.html", "sub/index.html", "sp ace.txt", "dot.file", "sub/deep/d.txt", "%2e%2e/enc.txt", "i/y/z",
+        "robots.txt", "favicon.ico"]
 OUTSIDE = ["canary.txt", "root-secret/s.txt", "root2/index.html"]
 HOSTILE = ["/a.txt%0D%1B%5B2K", "/x%0A[10.0.0.1]%20File%20requested:%20/favicon.ico", "/sub/b.txt%1B%5B1A%1B%5B2K", "/../canary.txt", "/%2e%2e/canary.txt", "/%252e%252e/canary.txt", "/..%2fcanary.txt", "/..%252fcanary.txt", "//canary.txt",
            "/sub/../../canary.txt", "/sub/%2e%2e/%2e%2e/canary.txt", "/a.txt%00", "/a.txt/", "/./a.txt", "/sub//b.txt", "/..\\canary.txt",
@@ -55,6 +56,11 @@ def make_cases(rng, tier):
     for m in ("GET", "POST", "PUT", "HEAD"):
         reqs += [(m, "/c"), (m, "/o/x"), (m, "/io"), (m, "/io/"), (m, "/c?c2=x")]
     reqs += [("POST", "/i/x"), ("PUT", "/i/x"), ("GET", "http://h.example/../canary.txt"), ("GET", "http://h.example/a.txt")]
+    # paths which web servers and libraries like to answer themselves (crawler files, health and debug endpoints): here they are ordinary file paths
+    reqs += [("GET", t) for t in ("/robots%2Etxt", "/%72obots.txt?x=1", "/sitemap.xml", "/.well-known/security.txt", "/healthz", "/metrics", "/debug/pprof/",
+                                  "/debug/vars", "/favicon.ico?v=2", "/index.htm", "/status")]
+    # the same target several times in a row (a client retrying): every request is one more request
+    reqs += [("GET", "/a.txt")] * 3 + [("GET", "/sub/b.txt?again=1")] * 2 + [("GET", "/nope.txt")] * 2
     n = 60 if tier == "quick" else 3000
     frags = ["..", "%2e%2e", "%252e%252e", ".", "sub", "deep", "a.txt", "canary.txt", "root-secret", "", "%2f", "%5c", "c", "i", "x", "%00", "..%2f", "%2e"]
     for _ in range(n):
